@@ -69,6 +69,10 @@ class Taint(AbstractValue):
             return self.clone()
         if name == 'format':
             return Unknown('taint-as-template')
+        if name == 'translate' and len(args) == 1 and isinstance(args[0], dict) and not any(
+                is_abstract(x) for x in args[0].values()):
+            table = args[0]
+            return self.mapped(lambda i: i.translate(table))
         if name == 'translate':
             return Unknown('translate')
         if name in ('find', 'index', 'count'):
@@ -825,3 +829,142 @@ def _end_tag(name, closing, selfclose, stack, tags, issues):
             issues.append(HtmlIssue('balance', 'void tag <%s> is not self-closed' % name))
         stack.append(name)
     return 'TEXT'
+
+
+# ---- LaTeX context lexer ---------------------------------------------------------
+
+TEX_TEXT_SPECIALS = set('\\{}$#%&_^')
+TEX_URL_SPECIALS = set('\\{}%$#')
+
+
+def tex_safe(s, specials=TEX_TEXT_SPECIALS):
+    """Every special character of s is part of a control sequence (\\c or \\word, optionally
+    followed by an empty group {})."""
+    i = 0
+    n = len(s)
+    while i < n:
+        c = s[i]
+        if c == '\\':
+            if i + 1 >= n:
+                return False
+            j = i + 1
+            if s[j].isalpha():
+                while j < n and s[j].isalpha():
+                    j += 1
+            else:
+                j += 1
+            if s[j:j + 2] == '{}':
+                j += 2
+            i = j
+            continue
+        if c in specials:
+            return False
+        i += 1
+    return True
+
+
+HOLE_MARK = '\x00'
+
+
+def tex_context(prefix):
+    if re.search(r'\\(href|url)\{$', prefix):
+        return 'URL'
+    if re.search(r'\\includegraphics(\[[^\]]*\])?\{$', prefix):
+        return 'PATH'
+    if re.search(r'\[[A-Za-z]+=$', prefix):
+        return 'OPTION'
+    if re.search(r'\\verb\*$', prefix):
+        return 'VERBSTAR'
+    m = re.search(r'\\verb(.)$', prefix, re.S)
+    if m and not m.group(1).isalpha() and m.group(1) not in ' *' + HOLE_MARK:
+        return 'VERB:' + m.group(1)
+    b = prefix.rfind('\\begin{lstlisting}')
+    if b >= 0 and prefix.find('\\end{lstlisting}', b) < 0 and '\n' in prefix[b:]:
+        return 'VERBATIM'
+    return 'TEXT'
+
+
+def lex_tex(skel):
+    """Returns (issues, holes) for a LaTeX skeleton. issues: list of (kind, detail, hole, context)."""
+    issues, holes = [], []
+    prefix = ''
+    for idx, part in enumerate(skel.parts):
+        if isinstance(part, str):
+            prefix += part
+            continue
+        v = part.value
+        ctx = tex_context(prefix)
+        holes.append((ctx, v))
+        if isinstance(v, Taint):
+            if ctx == 'VERBATIM':
+                pass
+            elif ctx == 'VERBSTAR':
+                issues.append(('hole', '"\\verb*" is the starred form of \\verb: the delimiter becomes the first character of '
+                               'the document text and the rest is typeset unescaped', v, ctx))
+            elif ctx.startswith('VERB:'):
+                nxt = skel.parts[idx + 1] if idx + 1 < len(skel.parts) else ''
+                if not (isinstance(nxt, str) and nxt.startswith(ctx[5:])):
+                    issues.append(('hole', '\\verb content is not closed by the same delimiter %r' % ctx[5:], v, ctx))
+            else:
+                specials = TEX_URL_SPECIALS if ctx == 'URL' else TEX_TEXT_SPECIALS
+                bad = sorted(c for c in v.allowed if c in specials and c in v.images and not tex_safe(v.images[c], specials))
+                # characters that are not special may not be mapped to something unsafe either
+                bad += sorted(c for c in v.allowed if c not in specials and c in v.images and v.images[c] != c
+                              and not tex_safe(v.images[c], specials))
+                if bad:
+                    issues.append(('hole', 'characters %s of %s reach a %s context as %s'
+                                   % (bad, v.label, ctx, [v.images[c] for c in bad]), v, ctx))
+        elif isinstance(v, (Markup, AbsInt)):
+            if ctx in ('URL', 'PATH', 'OPTION') and isinstance(v, Markup):
+                issues.append(('hole', 'rendered markup placed in a %s argument' % ctx, v, ctx))
+        else:
+            issues.append(('hole', 'value of unknown origin (%r) reaches the output' % (v,), v, ctx))
+        prefix += HOLE_MARK
+    # balance of the literal text
+    text = prefix
+    depth = 0
+    envs = []
+    i = 0
+    verbatim = False
+    while i < len(text):
+        c = text[i]
+        if text.startswith('\\begin{lstlisting}', i):
+            verbatim = True
+        if text.startswith('\\end{lstlisting}', i):
+            verbatim = False
+        m = re.match(r'\\(begin|end)\{([A-Za-z*]+)\}', text[i:])
+        if m:
+            if m.group(1) == 'begin':
+                envs.append(m.group(2))
+            else:
+                if not envs or envs[-1] != m.group(2):
+                    issues.append(('balance', '\\end{%s} does not close %s' % (m.group(2), envs), None, None))
+                else:
+                    envs.pop()
+            i += m.end()
+            continue
+        if verbatim and not text.startswith('\\end{lstlisting}', i):
+            i += 1
+            continue
+        if c == '\\':
+            if text[i + 1:i + 5] == 'verb' and i + 5 < len(text):
+                d = text[i + 5]
+                j = text.find(d, i + 6)
+                if j > 0:
+                    i = j + 1
+                    continue
+            i += 2
+            continue
+        if c == '{':
+            depth += 1
+        elif c == '}':
+            depth -= 1
+            if depth < 0:
+                issues.append(('balance', 'unmatched } in template', None, None))
+                depth = 0
+        i += 1
+    if depth != 0:
+        issues.append(('balance', 'unbalanced braces in template (depth %d at end)' % depth, None, None))
+    if envs:
+        issues.append(('balance', 'unclosed environments %s' % envs, None, None))
+    return issues, holes
